@@ -31,13 +31,17 @@
    interpreter and compared with the real run of the same history without the failing inputs. *)
 EXTENDS Integers, Sequences, TLC, Json, GrolPrims
 
-CONSTANTS NumRegisters, MaxOps, Bursts, WriterRestored, LoopReleases, MacroStateFresh, DepthBalanced, ParserFresh, ErrorsNotCached, EmitOn
+CONSTANTS NumRegisters, MaxOps, Bursts, WriterRestored, LoopReleases, MacroStateFresh, DepthBalanced, ParserFresh, ErrorsNotCached,
+          RefusedCallIsNoOp,   \* TRUE: an extension call refused for an argument has not touched the extension's own state (FALSE: a refused
+                               \*       draw has already closed the path)
+          EmitOn
 
 \* "loopvar" reads a counted-loop variable after its loop (hidden while registers are available); "deep" recurses to just
 \* below the depth limit (fails if a failed input left depth levels behind)
 \* "macro" expands and evaluates a macro call (fails if a failed expansion left the macro evaluator dirty)
 \* "slowcall" calls a pure recursive function with an argument that was on the stack of a "deadline-in-pure-recursion" failure
-GoodKinds == {"print", "loop", "call", "define", "incr", "loopvar", "deep", "macro", "slowcall"}
+\* "imgdraw" adds a segment to the path under construction on the session's image, draws it and prints the image
+GoodKinds == {"print", "loop", "call", "define", "incr", "loopvar", "deep", "macro", "slowcall", "imgdraw"}
 FailKinds == {"err-nested-calls", "err-in-top-loop", "err-in-nested-loops", "panic-in-function", "depth-overflow", "deadline", "memory-guard",
               "panic-in-top-loop", "memory-guard-top-level", "depth-overflow-expression",
               \* a call written directly at the top level that fails while its arguments are bound (count, constant parameter)
@@ -52,23 +56,27 @@ FailKinds == {"err-nested-calls", "err-in-top-loop", "err-in-nested-loops", "pan
               \* a break / continue that reaches the end of a function body (directly, and through calls made from a loop)
               "break-reaches-function-end", "continue-reaches-function-end-in-loop",
               \* a deadline expiring inside a pure (memoizable) recursive function
-              "deadline-in-pure-recursion"}
+              "deadline-in-pure-recursion",
+              \* an extension call refused for one of its arguments while a path is under construction on an image
+              "failing-draw-mid-path", "failing-segment-mid-path"}
 
-VARIABLES writer, scope, depth, regs, macro, parser, stale, clean, hist
-vars == <<writer, scope, depth, regs, macro, parser, stale, clean, hist>>
+VARIABLES writer, scope, depth, regs, macro, parser, stale, path, clean, hist
+vars == <<writer, scope, depth, regs, macro, parser, stale, path, clean, hist>>
 view == vars   \* every history is a distinct behaviour to replay (the abstract state alone is tiny)
 
-Init == writer = "session" /\ scope = "top" /\ depth = 0 /\ regs = 0 /\ macro = 0 /\ parser = "fresh" /\ stale = FALSE /\ clean = TRUE /\ hist = <<>>
+Init == writer = "session" /\ scope = "top" /\ depth = 0 /\ regs = 0 /\ macro = 0 /\ parser = "fresh" /\ stale = FALSE /\ path = "open" /\ clean = TRUE /\ hist = <<>>
 
 \* macro: depth levels left in the evaluator used for macro bodies (0 when every expansion gets a fresh one)
 \* parser: "fresh" or "stuck" (refuses everything after one too-deep input); stale: the memo cache holds an error result
-IsClean == writer = "session" /\ scope = "top" /\ depth = 0 /\ regs = 0 /\ macro = 0 /\ parser = "fresh" /\ ~stale
+\* path: the path under construction in the image extension's own state is as the good inputs left it ("open") or was closed by a refused call
+IsClean == writer = "session" /\ scope = "top" /\ depth = 0 /\ regs = 0 /\ macro = 0 /\ parser = "fresh" /\ ~stale /\ path = "open"
 
 \* a good input shows its normal output iff the session is clean (a counted loop also needs a register)
 Good(k) ==
   /\ Len(hist) < MaxOps
   /\ clean' = (clean /\ IsClean)
   /\ UNCHANGED <<writer, scope, depth, regs, macro, parser, stale>>
+  /\ path' = IF k = "imgdraw" THEN "open" ELSE path     \* (a draw starts the next path)
   /\ hist' = Append(hist, <<"good", k, 1>>)
 
 RECURSIVE After(_, _, _)
@@ -89,6 +97,7 @@ Fail(k, n) ==
   /\ depth' = IF k \in {"break-reaches-function-end", "continue-reaches-function-end-in-loop"} /\ ~DepthBalanced THEN depth + n ELSE depth
   /\ parser' = IF k = "parse-error-too-deep" /\ ~ParserFresh THEN "stuck" ELSE parser
   /\ stale' = (stale \/ (k = "deadline-in-pure-recursion" /\ ~ErrorsNotCached))
+  /\ path' = IF k = "failing-draw-mid-path" /\ ~RefusedCallIsNoOp THEN "closed" ELSE path
   /\ UNCHANGED <<scope, clean>>
   /\ hist' = Append(hist, <<"fail", k, n>>)
 
